@@ -155,6 +155,16 @@ func c08Spaces(c *fw.Ctx) {
 				emit(func(r *fw.R) { c08Msg(r, m, "sections") })
 			})
 		})
+	c.Space("escaped-name-tails", "the messages of C04's space of that name (names with escapes × every tail of their presentation text as a later name, 3 shapes): Len ≥ Pack under both Compress settings, PackBuffer as for every message; non-trivial: escape-free", true,
+		func(emit func(func(*fw.R))) {
+			genTails(func(m *wire.Msg, what string) {
+				emit(func(r *fw.R) {
+					r.Nontrivial()
+					c08Msg(r, m, "escaped-name-tails")
+					r.Sample(func() any { return what })
+				})
+			})
+		})
 	c.Space("offset-16384", "messages whose late names start at every offset 16360..16410 (compression map cut-off): Len ≥ Pack, exact when plain; non-trivial: escape-free", true,
 		func(emit func(func(*fw.R))) {
 			genOffsets(16360, 16410, func(m *wire.Msg, at int) {
